@@ -46,7 +46,10 @@ Case(t) == [hdr |-> t.hdr, rows |-> t.rows,
   stack |-> Stack(t, T2, 0), stack9 |-> Stack(t, T2, 9), annex |-> Annex(t, T2, 0), annexr |-> Annex(T2, t, 9),
   setheader |-> SetHeader(t, <<"x", "y">>), extendheader |-> ExtendHeader(t, <<"x">>), pushheader |-> PushHeader(t, <<"x", "y">>),
   rename |-> Rename(t, "a", "q"),
-  convert |-> Convert(t, "a", LAMBDA v : v + 1000), values |-> Values(t, "b", 0), values9 |-> Values(t, "b", 9)]
+  convert |-> Convert(t, "a", LAMBDA v : v + 1000), values |-> Values(t, "b", 0), values9 |-> Values(t, "b", 9),
+  \* rows as the accessors dicts / records / namedtuples see them: padded with missing, trimmed to the header
+  squared |-> MapRows(t.rows, LAMBDA r : PyPadTrim(r, Len(t.hdr), 0)), squared9 |-> MapRows(t.rows, LAMBDA r : PyPadTrim(r, Len(t.hdr), 9)),
+  addfield9 |-> SetToSeq({[index |-> ix, out |-> AddFieldM(t, "z", V, ix, 9)] : ix \in {99, 0, -1}})]
 
 \* fill cases: rectangular for filldown (it indexes every row), ragged for fillright / fillleft
 FCells == {0, 1, 2}
